@@ -429,6 +429,184 @@ fn subst_goal(g: &SG, x: &str, e: &ST) -> SG {
     }
 }
 
+// ------------------------------------------------------------------------------------------------
+// tie to the Lean model of the translation (Model/Surface.lean): the same AST goes through `elabG` in
+// the Lean driver and through `Elab` here; both print the elaborated goal in one flat format
+
+/// name table: query names first, then every other name in order of appearance
+struct Names(Vec<String>);
+impl Names {
+    fn id(&mut self, n: &str) -> usize {
+        if let Some(i) = self.0.iter().position(|x| x == n) {
+            i
+        } else {
+            self.0.push(n.to_string());
+            self.0.len() - 1
+        }
+    }
+}
+
+fn lean_term(t: &ST, ns: &mut Names, out: &mut String) -> bool {
+    match t {
+        ST::Var(n) => out.push_str(&format!("v{} ", ns.id(n))),
+        ST::Any => out.push_str("any "),
+        ST::Num(n) => out.push_str(&format!("i{} ", n)),
+        ST::Bool(b) => out.push_str(if *b { "b1 " } else { "b0 " }),
+        ST::Chr(c) => out.push_str(&format!("ch{} ", *c as u32)),
+        ST::Str(i) => out.push_str(&format!("s{} ", i)),
+        ST::List(v) => {
+            for x in v {
+                out.push_str("cons ");
+                if !lean_term(x, ns, out) {
+                    return false;
+                }
+            }
+            out.push_str("nil ");
+        }
+        ST::Improper(v, tl) => {
+            for x in v {
+                out.push_str("cons ");
+                if !lean_term(x, ns, out) {
+                    return false;
+                }
+            }
+            return lean_term(tl, ns, out);
+        }
+    }
+    true
+}
+
+fn lean_seq(gs: &[SG], op: &str, unit: &str, ns: &mut Names, out: &mut String) -> bool {
+    // right-nested binary chain g1 op (g2 op (… op unit))
+    match gs {
+        [] => {
+            out.push_str(unit);
+            out.push(' ');
+            true
+        }
+        [g, rest @ ..] => {
+            out.push_str(op);
+            out.push(' ');
+            lean_goal(g, ns, out) && lean_seq(rest, op, unit, ns, out)
+        }
+    }
+}
+
+/// the Lean `SGoal` token form of a surface goal (None: uses a construct outside the Lean model)
+fn lean_goal(g: &SG, ns: &mut Names, out: &mut String) -> bool {
+    match g {
+        SG::Eq(a, b) => {
+            out.push_str("eq ");
+            lean_term(a, ns, out) && lean_term(b, ns, out)
+        }
+        SG::Neq(a, b) => {
+            out.push_str("neq ");
+            lean_term(a, ns, out) && lean_term(b, ns, out)
+        }
+        SG::True => {
+            out.push_str("tt ");
+            true
+        }
+        SG::False => {
+            out.push_str("ff ");
+            true
+        }
+        SG::Conj(gs) => lean_seq(gs, "conj", "tt", ns, out),
+        SG::Op("conde", cs) => {
+            // disjunction of conjunctions
+            fn clauses(cs: &[Vec<SG>], ns: &mut Names, out: &mut String) -> bool {
+                match cs {
+                    [] => {
+                        out.push_str("ff ");
+                        true
+                    }
+                    [c, rest @ ..] => {
+                        out.push_str("disj ");
+                        lean_seq(c, "conj", "tt", ns, out) && clauses(rest, ns, out)
+                    }
+                }
+            }
+            clauses(cs, ns, out)
+        }
+        SG::Fresh(names, gs) => {
+            for n in names {
+                out.push_str(&format!("fresh {} ", ns.id(n)));
+            }
+            lean_seq(gs, "conj", "tt", ns, out)
+        }
+        SG::Match(kind, t, arms) if *kind == "match" || *kind == "matche" => {
+            // one `mtch` per arm alternative (the macro expands the body once per alternative)
+            for (ps, body, _) in arms {
+                for p in ps {
+                    out.push_str("mtch ");
+                    if !(lean_term(t, ns, out) && lean_term(p, ns, out) && lean_seq(body, "conj", "tt", ns, out)) {
+                        return false;
+                    }
+                }
+            }
+            out.push_str("ff ");
+            true
+        }
+        _ => false,
+    }
+}
+
+fn flat_term(t: &T) -> String {
+    t.text()
+}
+
+/// the elaborated reference program in the flat format the Lean driver prints for `EGoal`:
+/// `(& …)` conjunction, `(| …)` disjunction, `F(…)` fresh scope, `succ`, `fail`, `eq T T`, `neq T T`;
+/// nested conjunctions / disjunctions are flattened, `succ` inside `&` and `fail` inside `|` dropped
+pub fn flat_pg(g: &PG) -> String {
+    fn conj(g: &PG, out: &mut Vec<String>) {
+        match g {
+            PG::Conj(gs) => gs.iter().for_each(|x| conj(x, out)),
+            PG::Succ => {}
+            PG::Fresh(b) => conj(b, out), // scoping carries no ids: a fresh body joins the enclosing conjunction
+            other => out.push(flat_pg(other)),
+        }
+    }
+    match g {
+        PG::Eq(a, b) => format!("eq {} {}", flat_term(a), flat_term(b)),
+        PG::Neq(a, b) => format!("neq {} {}", flat_term(a), flat_term(b)),
+        PG::Succ => "succ".into(),
+        PG::Fail => "fail".into(),
+        PG::Conj(_) => {
+            let mut v = vec![];
+            conj(g, &mut v);
+            format!("(& {})", v.join(" ; "))
+        }
+        PG::Conde(cs) => {
+            let v: Vec<String> = cs.iter().map(|c| flat_pg(&PG::Conj(c.clone()))).collect();
+            format!("(| {})", v.join(" ; "))
+        }
+        PG::Fresh(b) => flat_pg(b),
+        other => format!("?{:?}", other),
+    }
+}
+
+impl Case {
+    /// (`surf …` case line for the Lean driver, the reference elaboration in the flat format), if the case
+    /// stays inside the fragment the Lean `Surface` model covers
+    pub fn lean_line(&self) -> Option<(String, String)> {
+        if !self.colls.is_empty() {
+            return None;
+        }
+        let mut ns = Names(self.qnames.clone());
+        let mut toks = String::new();
+        let body = match &self.body {
+            SG::Conj(_) => self.body.clone(),
+            other => SG::Conj(vec![other.clone()]),
+        };
+        if !lean_goal(&body, &mut ns, &mut toks) {
+            return None;
+        }
+        let (_, _, pg) = self.elaborate();
+        Some((format!("surf {} {}", self.qnames.len(), toks.trim_end()), flat_pg(&pg[0])))
+    }
+}
+
 /// One generated case: query variable names, prelude collections, body, number of answers to take
 #[derive(Clone, Debug)]
 pub struct Case {
@@ -542,8 +720,9 @@ impl SurfGen {
     /// a goal over the variables in scope; `kinds` selects which constructs may appear
     pub fn goal(&self, r: &mut Rng, scope: &mut Vec<String>, depth: usize, kinds: &Kinds) -> SG {
         let atom = |r: &mut Rng, scope: &Vec<String>| -> SG {
-            let a = if r.chance(2, 3) && !scope.is_empty() { ST::Var(r.pick(scope).clone()) } else { self.term(r, scope, 2, false) };
-            let b = self.term(r, scope, 2, false);
+            // mostly `variable == small term` (satisfiable), sometimes two arbitrary terms
+            let a = if r.chance(5, 6) && !scope.is_empty() { ST::Var(r.pick(scope).clone()) } else { self.term(r, scope, 2, false) };
+            let b = if r.chance(3, 4) { self.term(r, scope, 1, false) } else { self.term(r, scope, 2, false) };
             let (a, b) = if r.chance(1, 2) { (a, b) } else { (b, a) };
             if r.chance(3, 4) {
                 SG::Eq(a, b)
@@ -552,7 +731,7 @@ impl SurfGen {
             }
         };
         if depth == 0 || r.chance(1, 3) {
-            return match r.below(12) {
+            return match r.below(16) {
                 0 => SG::True,
                 1 => SG::False,
                 2 if kinds.calls => SG::Call("member", vec![ST::Var(r.pick(scope).clone()), ST::List((0..r.below(4)).map(|_| ST::Num(r.range(1, 3) as isize)).collect())]),
